@@ -75,6 +75,8 @@ class Ops:
       return self.coerce(self.unwrap(v), sort)
     if v is NONEV and getattr(sort, 'nullable', False) and hasattr(sort, 'literal') and not isinstance(sort, Opaque):
       return SV(sort, sort.literal(None))
+    if isinstance(v, bool) and isinstance(sort, Opaque) and getattr(sort, 'coerce_bool', False):
+      return SV(sort, z3.Function('kwarg_true' if v else 'kwarg_false', sort.z3())())
     if v is NONEV and isinstance(sort, Opaque) and sort.nullable:
       return SV(sort, sort.literal(None))
     if isinstance(v, Lit):
@@ -371,6 +373,9 @@ class Ops:
       c = self.unwrap(c)
     if isinstance(c, PyTuple):
       return z3.Or(*[self.py_eq(x, y) for y in c]) if c else zbool(False)
+    if isinstance(c, IterView) and getattr(c, 'source_map', None) is not None:
+      m = c.source_map
+      return m.sort.has(m.t, self.coerce(x, m.sort.key).t)
     if isinstance(c, SV):
       s = c.sort
       if isinstance(s, SetOf):
